@@ -305,3 +305,22 @@ def c10_7(ctx):
                      witness="drange(dt(2020,1,31), dt(2020,6,1), '1m1d')")
     for c in calls_in(ast.Module(body, []), 'drange'):
         ctx.fail(fn, c, 'the period branch re-enters drange with a derived bump (`%s`)' % U(c)[:80])
+
+
+@obligation('C10.8', 'TYPESTATE (endpoints are what the caller gave)', '_drange:drange',
+            'the list runs from t0 to t1: the endpoints are resolved ONCE (date_range / dt) before the bump is looked at and never moved afterwards - rolling t0 to a business day, for instance, puts dates outside [t0, t1] into a backward range',
+            axioms=())
+def c10_8(ctx):
+    fn = ctx.repo.fn('_drange:drange')
+    t0, t1 = fn.params[:2]
+    stores = [s for s in body_nodes(fn.node) if isinstance(s, (ast.Assign, ast.AugAssign)) and any(isinstance(n, ast.Name) and n.id in (t0, t1) and isinstance(n.ctx, ast.Store) for n in ast.walk(s))]
+    ctx.count(1, fn.where())
+    top = [s for s in stores if s in fn.body]
+    for s in stores:
+        if s not in fn.body:
+            ctx.fail(fn, s, 'an endpoint is moved inside a bump-specific branch (`%s`): the dates produced no longer start at / stay within the caller\'s [t0, t1]' % U(s)[:80], witness="drange(saturday, earlier_day, '-1b')")
+    # the resolving statements come before the first test on bump
+    first_bump_test = [s for s in fn.body if isinstance(s, ast.If) and 'bump' in names_in(s.test)]
+    for s in top:
+        if first_bump_test and s.lineno > first_bump_test[-1].lineno:
+            ctx.fail(fn, s, 'an endpoint is rebound after the bump dispatch started: `%s`' % U(s)[:80])
